@@ -59,7 +59,9 @@ def c08_file(draw):
         src = draw(st.integers(0, n - 1))
         copies.append((f"MyCopy{i}", src))
     for i, m in enumerate(owners):
-        lower = owners[i + 1:] + [c for c, src in copies if src > i]
+        # lower-ranked owners, copies of lower-ranked owners, and conjugates of lower-ranked owners (which get a table
+        # only through CDecay, i.e. only when charge-conjugate decays are included)
+        lower = owners[i + 1:] + [c for c, src in copies if src > i] + [N.ref_conj(o) for o in owners[i + 1:]]
         lines = []
         for _ in range(draw(st.integers(0, 3))):
             ds = []
